@@ -36,7 +36,7 @@ PROFILES = {
     "charclass": dict(p_unicode=0.75, w_char=8, w_string=3, w_struct=3, w_unit=0, w_alias=1, w_enum=1, nrules=(3, 6), p_ccheck=0.2, p_lookahead=0.2, p_memo=0.2),
     # mostly @string rules of every body shape (single literals, case-insensitive keywords, closures, override fields, nested
     # @string rules), entered from skipping and non-skipping rules
-    "strings": dict(w_string=9, w_struct=4, w_unit=1, w_char=2, w_extern=4, w_alias=1, w_enum=1, p_fields_in_string=0.3, p_noskip=0.5, p_insens=0.3, p_ws_lit=0.1,
+    "strings": dict(p_string_trailing_neg=0.3, p_trailing_neg=0.2, w_string=9, w_struct=4, w_unit=1, w_char=2, w_extern=4, w_alias=1, w_enum=1, p_fields_in_string=0.3, p_noskip=0.5, p_insens=0.3, p_ws_lit=0.1,
                     p_position=0.35, p_single_lit_string=0.3, nrules=(3, 7)),
     "memo": dict(p_shared_prefix=0.35, p_memo=0.5, p_lookahead=0.2, nrules=(3, 7), p_check=0.3, p_ccheck=0.2, w_extern=4, w_char=2),
     "memofail": dict(p_shared_prefix=0.5, w_alias=3, p_memo=1.0, p_probe=0.7, p_lookahead=0.15, w_extern=1, nrules=(3, 6), p_check=0.35, p_ccheck=0.2, w_char=2),
@@ -44,7 +44,7 @@ PROFILES = {
                       w_enum=0, w_char=1, p_include=0.15, p_lookahead=0.03, p_noskip=0.1, dense_fields=True),
     "leftrec": dict(leftrec=1.0, p_memo=0.1, p_position=0.3, p_check=0.4, p_probe=0.5),
     "ws": dict(p_noskip=0.5, p_user_ws=0.45, p_include=0.25, w_string=3, p_position=0.3, p_ws_lit=0.15),
-    "position": dict(p_position=0.8, p_unicode=0.3, w_string=3, w_enum=2, p_memo=0.15, leftrec=0.15),
+    "position": dict(p_single_lit_string=0.3, p_insens=0.25, p_box=0.3, p_position=0.8, p_unicode=0.3, w_string=4, w_enum=3, p_memo=0.15, leftrec=0.15),
     "errors": dict(p_lookahead=0.25, p_check=0.25, w_extern=1, w_char=2, p_ccheck=0.3, p_eoi_root=0.8),
     "include": dict(p_fields_in_string=0.5, w_string=4, p_user_ws=0.25, p_lonely_include=0.35, p_nest_include=0.6, p_name_family=0.3, p_include=0.6, p_noskip=0.4, p_position=0.3, p_memo=0.15, p_check=0.15, w_struct=8,
                     w_unit=2, w_alias=0, w_enum=1),
@@ -437,6 +437,13 @@ class Gen:
         elif kind == "string":
             mode = "named" if self.coin(p["p_fields_in_string"]) else "none"
             body = self.string_body(mode)
+            if self.coin(p.get("p_string_trailing_neg", 0.12)):
+                # keyword-style: the text ends where a lookahead says it must ( 'let' !IdentChar ) - the value and the range of the
+                # rule end in front of whatever the lookahead inspected or skipped
+                la = Neg(self.lit_nonempty() if self.coin(0.6) else self.rng())
+                for alt in body.alts:
+                    if alt.parts:
+                        alt.parts.append(la)
         elif kind == "alias":
             body = self.alias_body()
         elif kind == "enum":
@@ -521,6 +528,9 @@ class Gen:
             parts.append(e)
             if not self._maybe_nullable(e):
                 consumed = True
+        if parts and self.coin(self.p.get("p_trailing_neg", 0.07)):
+            # "keyword not followed by ..." : a lookahead as the last thing a sequence (often a whole rule) matches
+            parts.append(Neg(self.lit_nonempty() if self.coin(0.6) else self.rng()))
         return Seq(parts)
 
     def _maybe_nullable(self, e):
@@ -722,6 +732,13 @@ class Gen:
 
     def enum_body(self):
         ts = [nm for nm in self.names[self.cur_i + 1:]] + ["char"]
+        if self.positioned.get(self.cur):
+            # a @position enum needs positioned variants: the (later, not yet generated) variant rules are made @position
+            pts = [nm for nm in self.names[self.cur_i + 1:] if self.kinds.get(nm) in ("struct", "string", "unit")]
+            if len(pts) >= 2:
+                ts = pts
+                for nm in pts:
+                    self.positioned[nm] = True
         k = min(len(ts), self.r.randint(2, 3))
         chosen = self.r.sample(ts, k)
         if len(set(chosen)) < 2:
